@@ -562,6 +562,10 @@ pub fn run_oe_case(c: &OeCase) -> CaseResult {
             if toks != (1..=successes).collect::<Vec<u64>>() {
                 res.violations.push(("C01:oe-collection-ids".into(), format!("{}: collection holds {:?}, expected 1..={}", vname, toks, successes)));
             }
+            // every token exists in the collection of the configured kind with the configured metadata
+            for what in w.metadata_violations() {
+                res.violations.push(("C01:oe-token-metadata".into(), what));
+            }
             res.coq = Some(w.case_coq(&init, &init_bal, &steps));
         }
         OeCase::Base { cfg, ops } => {
@@ -652,6 +656,7 @@ fn oe_corpus() -> Vec<OeCase> {
         // (a) num_tokens = 3, with end time: sell out by Mint + MintTo, the 4th of each kind fails; purge/burn after the end
         let mut cfg = OeCfg::basic(variant);
         cfg.num_tokens = Some(3);
+        cfg.onchain = true;
         v.push(OeCase::Oe {
             cfg: cfg.clone(),
             ops: vec![
@@ -704,6 +709,11 @@ fn oe_corpus() -> Vec<OeCase> {
         cfg.num_tokens = None;
         let mut ops = vec![OeOp::At { secs: 3000, nanos: 5 }];
         ops.push(OeOp::SudoParams { min_price: None, mint_fee_bps: None, airdrop_price: None, airdrop_fee_bps: None, offset: None, max_pal: None, max_token_limit: Some(100), dev: None });
+        // governance makes airdrops free after creation: an edition without num_tokens then refuses to airdrop
+        ops.push(OeOp::SudoParams { min_price: None, mint_fee_bps: None, airdrop_price: Some(0), airdrop_fee_bps: None, offset: None, max_pal: None, max_token_limit: None, dev: None });
+        ops.push(OeOp::MintTo { who: CREATOR.into(), recipient: BUYERS[2].into(), funds: vec![] });
+        ops.push(OeOp::MintTo { who: CREATOR.into(), recipient: BUYERS[2].into(), funds: nat(40) });
+        ops.push(OeOp::SudoParams { min_price: None, mint_fee_bps: None, airdrop_price: Some(40), airdrop_fee_bps: None, offset: None, max_pal: None, max_token_limit: None, dev: None });
         for k in 0..14u64 {
             if k % 3 == 0 {
                 ops.push(OeOp::Mint { who: BUYERS[(k % 2) as usize].into(), funds: nat(100) });
@@ -722,6 +732,8 @@ fn oe_corpus() -> Vec<OeCase> {
         cfg.num_tokens = Some(4);
         cfg.end_in_secs = None;
         cfg.payment_address = true;
+        cfg.onchain = true;
+        cfg.image = Some(format!("\t{}  ", OE_IMAGE));
         v.push(OeCase::Oe {
             cfg,
             ops: vec![
@@ -812,6 +824,41 @@ fn oe_corpus() -> Vec<OeCase> {
             }
             v.push(OeCase::Oe { cfg, ops });
         }
+        // (h) foreign whitelist contracts (anyone can name any contract as whitelist): one that claims to be
+        //     tiered and reports active stage 4, one whose HasMember fails, one whose Stage query fails,
+        //     one whose Member query fails; whitelist mints are refused, the public sale is unharmed
+        let mut cfg = OeCfg::basic(variant);
+        cfg.num_tokens = Some(4);
+        cfg.spares = (0..4u8)
+            .map(|k| SpareWl { kind: 6 + k, start_in: 1000 + 300 * k as u64, end_in: 1200 + 300 * k as u64, price: 60, ibc: false })
+            .collect();
+        let mut ops = vec![];
+        for k in 0..4u64 {
+            ops.push(OeOp::SetWhitelist { who: CREATOR.into(), spare: k as usize });
+            ops.push(OeOp::At { secs: 1000 + 300 * k, nanos: 0 });
+            ops.push(OeOp::MintM { who: BUYERS[0].into(), funds: nat(60), stage: None, proof: Some(vec![]), allocation: None });
+            ops.push(OeOp::MintM { who: BUYERS[0].into(), funds: nat(100), stage: None, proof: Some(vec![]), allocation: None });
+            ops.push(OeOp::MintTo { who: CREATOR.into(), recipient: BUYERS[1].into(), funds: nat(40) });
+            ops.push(OeOp::At { secs: 1200 + 300 * k, nanos: 0 });
+        }
+        ops.push(OeOp::At { secs: 3000, nanos: 0 });
+        ops.push(OeOp::MintM { who: BUYERS[0].into(), funds: nat(100), stage: None, proof: Some(vec![]), allocation: None });
+        ops.push(OeOp::MintM { who: BUYERS[0].into(), funds: nat(100), stage: None, proof: None, allocation: None });
+        v.push(OeCase::Oe { cfg, ops });
+        // (g) on-chain metadata without an image: the token is stored with the extension as configured
+        let mut cfg = OeCfg::basic(variant);
+        cfg.num_tokens = Some(2);
+        cfg.onchain = true;
+        cfg.image = Some(String::new());
+        v.push(OeCase::Oe {
+            cfg,
+            ops: vec![
+                OeOp::MintTo { who: CREATOR.into(), recipient: BUYERS[1].into(), funds: nat(40) },
+                OeOp::At { secs: 3000, nanos: 0 },
+                OeOp::Mint { who: BUYERS[0].into(), funds: nat(100) },
+                OeOp::Mint { who: BUYERS[0].into(), funds: nat(100) },
+            ],
+        });
         // (f) schedule and price updates, trading time, governance changes between mints
         let mut cfg = OeCfg::basic(variant);
         cfg.num_tokens = Some(5);
@@ -901,6 +948,16 @@ fn gen_oe_case(rng: &mut Rng, variant: usize, thorough: bool) -> OeCase {
     cfg.fp.airdrop_fee_bps = *rng.pick(&[0u64, 5000, 10000]);
     if rng.chance(1, 6) {
         cfg.fp.denom = IBC.to_string();
+    }
+    // NFT metadata mode: on-chain metadata (sg721-metadata-onchain collection) in two of five
+    // editions, now and then with a whitespace-padded or absent image URL
+    cfg.onchain = rng.chance(2, 5);
+    if cfg.onchain {
+        cfg.image = match rng.below(6) {
+            0 => Some(format!("  {} ", OE_IMAGE)),
+            1 => Some(String::new()),
+            _ => None,
+        };
     }
     let dn = cfg.fp.denom.clone();
     let other = if dn == NATIVE { IBC.to_string() } else { NATIVE.to_string() };
